@@ -3,6 +3,7 @@ package props
 import (
 	"unicode/utf16"
 
+	"github.com/yorkie-team/yorkie/pkg/document"
 	"github.com/yorkie-team/yorkie/pkg/document/crdt"
 	"github.com/yorkie-team/yorkie/pkg/document/json"
 
@@ -30,12 +31,20 @@ type Vetoed struct {
 }
 
 func makeGuard(g Guards, v *Vetoed) func(w *sim.World, ri int, e *gen.Edit) bool {
+	gd := makeGuardDoc(g, v)
 	return func(w *sim.World, ri int, e *gen.Edit) bool {
 		r := w.Reps[ri]
 		if r.Doc == nil {
 			return true
 		}
-		root := r.Doc.Root()
+		return gd(r.Doc, e)
+	}
+}
+
+// makeGuardDoc is makeGuard for a bare Document.
+func makeGuardDoc(g Guards, v *Vetoed) func(d *document.Document, e *gen.Edit) bool {
+	return func(d *document.Document, e *gen.Edit) bool {
+		root := d.Root()
 		c, err := gen.Resolve(root, e.Path)
 		if err != nil {
 			return true
